@@ -421,7 +421,7 @@ func TestCheck(t *testing.T) {
 	case "checkptr":
 		scale = 3
 	}
-	nseq := r.N(640, 12800) / scale
+	nseq := r.N(3200, 32000) / scale
 	nops := 8000
 	nw := ev.Workers()
 	lcs := make([]*ev.Local, nw)
